@@ -181,6 +181,11 @@ type rpSys struct {
 	blocked bool
 	done    chan error
 	logCfg  *PartitionLogConfig // override (broker configuration layouts)
+	// followAssigned: an append that is assigned a base offset beyond the reference's end
+	// (the log skipped offsets) is not a harness error; the reference takes the assigned
+	// base offset ("apart from the assigned base offset") and has a hole. Set by C03 only.
+	followAssigned bool
+	offsetGaps     int
 }
 
 var rpDiscard = slog.New(slog.NewTextHandler(io.Discard, nil))
@@ -253,7 +258,11 @@ func (s *rpSys) appendWith(mk func(p *rpPart) ([]byte, int)) error {
 			return fmt.Errorf("AppendBatch: %w", aerr)
 		}
 		if res != nil && res.BaseOffset != base {
-			return fmt.Errorf("AppendBatch assigned base %d, reference expects %d", res.BaseOffset, base)
+			if !s.followAssigned || res.BaseOffset < base {
+				return fmt.Errorf("AppendBatch assigned base %d, reference expects %d", res.BaseOffset, base)
+			}
+			base = res.BaseOffset
+			s.offsetGaps++
 		}
 		patched := append([]byte(nil), raw...)
 		binary.BigEndian.PutUint64(patched[0:8], uint64(base))
